@@ -744,7 +744,15 @@ def mode_schedules_unmodelled(ck):
              '</COMPU-SCALES></COMPU-INTERNAL-TO-PHYS></COMPU-METHOD>'
              '<DIAG-CODED-TYPE BASE-DATA-TYPE="A_UINT32" xsi:type="STANDARD-LENGTH-TYPE"><BIT-LENGTH>8</BIT-LENGTH></DIAG-CODED-TYPE>'
              '<PHYSICAL-TYPE BASE-DATA-TYPE="A_UNICODE2STRING"/></DATA-OBJECT-PROP>')
-    fl = fl + [("tt", None, None)]
+    # piecewise linear with a gap between the scales and a COMPU-DEFAULT-VALUE for internal values which no scale covers
+    dops += ('<DATA-OBJECT-PROP ID="sl_dflt"><SHORT-NAME>sl_dflt</SHORT-NAME><COMPU-METHOD><CATEGORY>SCALE-LINEAR</CATEGORY><COMPU-INTERNAL-TO-PHYS><COMPU-SCALES>'
+             + "".join(f'<COMPU-SCALE><LOWER-LIMIT>{lo}</LOWER-LIMIT><UPPER-LIMIT>{hi}</UPPER-LIMIT><COMPU-RATIONAL-COEFFS><COMPU-NUMERATOR>'
+                       f'<V>{off}</V><V>{f}</V></COMPU-NUMERATOR><COMPU-DENOMINATOR><V>1</V></COMPU-DENOMINATOR></COMPU-RATIONAL-COEFFS></COMPU-SCALE>'
+                       for lo, hi, off, f in ((0, 9, 0, 1), (20, 29, 100, 2))) +
+             '</COMPU-SCALES><COMPU-DEFAULT-VALUE><V>999</V></COMPU-DEFAULT-VALUE></COMPU-INTERNAL-TO-PHYS></COMPU-METHOD>'
+             '<DIAG-CODED-TYPE BASE-DATA-TYPE="A_UINT32" xsi:type="STANDARD-LENGTH-TYPE"><BIT-LENGTH>8</BIT-LENGTH></DIAG-CODED-TYPE>'
+             '<PHYSICAL-TYPE BASE-DATA-TYPE="A_UINT32"/></DATA-OBJECT-PROP>')
+    fl = fl + [("tt", None, None), ("sl_dflt", None, None)]
     reqs = "".join(
         f'<REQUEST ID="rq_{n}"><SHORT-NAME>rq_{n}</SHORT-NAME><PARAMS><PARAM xsi:type="CODED-CONST"><SHORT-NAME>sid</SHORT-NAME>'
         f'<BYTE-POSITION>0</BYTE-POSITION><CODED-VALUE>{0x50 + i}</CODED-VALUE><DIAG-CODED-TYPE BASE-DATA-TYPE="A_UINT32" '
@@ -774,7 +782,8 @@ def mode_schedules_unmodelled(ck):
         n = rq.short_name
         for v in (("on", "off", "auto", "nope", "on") if n == "rq_tt" else (1.5, 0.0)):
             ops.append((f"{n}.encode(v={v!r})", {"request": n, "value": v}, lambda rq=rq, v=v: bytes(rq.encode(v=v)).hex()))
-        for m in (bytes([rq.parameters[0].coded_value]) + bytes(range(1, 10)), bytes([rq.parameters[0].coded_value, 0x3F, 0xC0, 0xAA])):
+        for m in (bytes([rq.parameters[0].coded_value]) + bytes(range(1, 10)), bytes([rq.parameters[0].coded_value, 0x3F, 0xC0, 0xAA]),
+                  bytes([rq.parameters[0].coded_value, 0x15, 0xAA])):
             ops.append((f"{n}.decode({m.hex()})", {"request": n, "msg": m.hex()}, lambda rq=rq, m=m: repr(cc.canon_value(rq.decode(m)))))
         ops.append((f"{n}.get_static_bit_length()", {"request": n}, lambda rq=rq: rq.get_static_bit_length()))
         ops.append((f"{n}.v.dop.get_static_bit_length()", {"request": n}, lambda rq=rq: rq.parameters[1].dop.get_static_bit_length()))
@@ -834,6 +843,12 @@ def layer_mode_schedules(ck):
               gnrs=[dict(id=3, name="gn1", params=c06.named([c06.u8(0x7F), u8v, u8v], "g"), resp=True)])
     layers.append((Lg, [(bytes([0x7F, 0x10, 0x22]), None), (bytes([0x7F, 0x01, 0x02, 0x03]), None), (bytes([0x7F, 0x10, 0x22]), bytes([0x10, 1])),
                         (bytes([0x50, 1]), None), (bytes([0x10]), None), (bytes([0x7F, 0x10]), None)]))
+    # corpus: a request whose value object carries an encoding which is illegal for its type (A_UINT32 with ISO-8859-1): a
+    # problem which strict mode reports as a plain OdxError, not as a decode error
+    bad_enc = cc.param(None, dict(k="value", dop=cc.simple(cc.std(cc.BUINT, 8, 8)), dflt=None))
+    Li = dict(services=[dict(id=1, name="svc1", req=dict(id=1, name="rq1", params=c06.named([c06.u8(0x2A), bad_enc], "a"), resp=False),
+                             pos=[dict(id=2, name="pr1", params=c06.named([c06.u8(0x6A), bad_enc], "b"), resp=True)], neg=[])], gnrs=[])
+    layers.append((Li, [(bytes([0x2A, 0x41]), None), (bytes([0x6A, 0x41]), None), (bytes([0x6A, 0x41]), bytes([0x2A, 0x41])), (bytes([0x2A]), None)]))
     for _ in range(12 if quick else 120):
         layers.append((c06.gen_layer(rng), None))
     n = 0
@@ -890,6 +905,10 @@ def layer_mode_schedules(ck):
                     bad = f"re-enabling strict mode does not restore the strict outcome: {outs[0]} vs {outs[2]}"
                 elif outs[0][0] == 0 and outs[1] != outs[0]:
                     bad = f"decoding succeeds in strict mode with {outs[0]} but lenient mode gives {outs[1]}"
+                elif outs[0][:2] == [-1, 4] and outs[1][:2] in ([-1, 4], [-1, 5]):
+                    # a problem which is no decode error (the description itself is at fault) is reported in strict mode and
+                    # tolerated in non-strict mode
+                    bad = f"the problem reported in strict mode ({outs[0]}) is not downgraded in non-strict mode ({outs[1]})"
                 if bad:
                     ck.violation(f"{what}, message {bytes(m).hex()}" + (f" (request {bytes(rq).hex()})" if rq else "") + ": " + bad,
                                  {"layer": json.loads(json.dumps(L, default=repr)),
